@@ -7,7 +7,7 @@ props = [json.loads(l) for l in open(os.path.join(HERE, 'properties.jsonl'))]
 CLAIMED = {
     'C01': dict(design='§6 C01', technique='Lean 4 proof (invariant over all reachable queue states, any PAlg) + trace validation of PcfgQueue',
                 text='Theorems over the Lean model of find_children/_are_you_my_child/_find_prob/PcfgQueue.next for every well-formed grid, every heap tie-breaking and every prefix; decision fragments regenerated from the source on each run; every pop of the real queue validated against the model.',
-                note='binary64: PAlg laws proved for the model SF (monotone correctly rounded product; C01_order_binary64), CPython float = SF compared bit for bit each run; heapq trusted; trainer-written lists load into well-formed columns (C07_trained_column_wf)'),
+                note='binary64: PAlg laws proved for the model SF (monotone correctly rounded product; C01_order_binary64), CPython float = SF compared bit for bit each run; heapq trusted; trainer-written lists load into well-formed columns (C07_trained_column_wf); C01_omen_prob_file_sorted (writer loops regenerated: the Markov column is written through most_common()); trained rulesets checked file by file for order'),
     'C02': dict(design='§6 C02', technique='Lean 4 proof (order-independent adoption invariant by induction over pops) + trace validation incl. heap contents',
                 text='Exactly-once/none-skipped proved for every well-formed grid and every intermediate state via the adoption-system invariant; real heap compared with the model multiset after every pop.',
                 note='same trusted base as C01; C02_exactly_once_binary64 (doubles, no float hypothesis), C02_language (multiset of expansions); base structures compared with an independent tokenisation of grammar.txt'),
@@ -22,22 +22,22 @@ CLAIMED = {
                 note='C08_resume_binary64 for doubles (saved minimum 0.0 discharged); session file I/O (configparser float round-trip) trusted; multi-cycle histories reduce to the single saved float'),
     'C09': dict(design='§6 C09', technique='Lean 4 proof (limit = take n, across pre-terminal, mask loop, Markov level, session loop) + generated print-site table (decide) + subprocess stdout diff',
                 text='Static: every output call site regenerated from source, only print_guess may reach stdout (decide). Dynamic: limit theorems for all N; CLI stdout compared byte for byte.',
-                note='OS pipe behaviour; AST scan finds print/sys.stdout.write/traceback sites only'),
+                note='OS pipe behaviour; AST scan finds print/sys.stdout.write/traceback sites only; argparse print_usage/print_help and any sys.stdout call other than write/flush count as stdout sites; other modes run with every neighbouring option'),
     'C10': dict(design='§6 C10', technique='Lean 4 proof (refinement of the backtracking enumerator to a specification list; cursor coverage) + exact sequence diff of MarkovCracker',
                 text='level_exact: the generator emits exactly the strings of the level, once, then exhaustion, for every well-formed table; real MarkovCracker sequences (fresh and warmed shared cache) equal the model and a brute-force level set.',
                 note='memo table: C10_cache_independent / C10_cache_history (fillC = fill for every table of true results) + C10_cache_sites (all optimizer calls sit in _fill_out_parse_tree with key (ip, length, target), regenerated from source) + direct correspondence of the table contents; C10_memo_table_per_object (the only Optimizer construction site is the body of PcfgGrammar.__init__, regenerated from source); tables and memo table also taken from PcfgGrammar objects built one after the other'),
     'C14': dict(design='§6 C14', technique='Lean 4 proof (loadBase skip = filter + rescale; case insertion) + loader correspondence + stream comparison + CLI save/restore',
                 text='Loader theorems for every grammar.txt text incl. no-M; streams compared exactly where 1-P(M) is a power of two; flags through --load by subprocess.',
-                note='C14_order_preserved: over exact rationals rescaling preserves every comparison, so with C01/C02 the skip_brute stream is the default stream without Markov pre-terminals; over doubles up to rounding of the rescaling (checked exactly where 1-P(M) is a power of two)'),
+                note='C14_order_preserved: over exact rationals rescaling preserves every comparison, so with C01/C02 the skip_brute stream is the default stream without Markov pre-terminals; over doubles up to rounding of the rescaling (checked exactly where 1-P(M) is a power of two); C14_load_takes_saved_flags (every program_info write of pcfg_guesser.py regenerated); --load with flags the session was not started with'),
     'C16': dict(design='§6 C16', technique='Lean 4 proof (pick = interval characterisation for every draw; membership; count) + scripted-draw correspondence at every breakpoint ±1 ulp',
                 text='Draws are universally quantified model inputs; selected index iff draw in (S_{j-1}, S_j]; every word in the product of the selected groups; exactly N words.',
-                note='C16_uniform_count: with integer weights exactly ws[j] of the sum(ws) equally spaced draws select index j (counting measure; replaces the on-paper step); Mersenne Twister determinism trusted'),
+                note='C16_uniform_count: with integer weights exactly ws[j] of the sum(ws) equally spaced draws select index j (counting measure; replaces the on-paper step); Mersenne Twister determinism trusted; the program itself on ISO-8859-1 / cp1251 rulesets with a UTF-8 consumer'),
     'C17': dict(design='§6 C17', technique='Lean 4 proof (princeLoop size = take N; C01/C02 on the Prince grid) + subprocess diff for every N inside tie groups',
                 text='--size theorem for all N and pop sequences; order/each-once from the PQ theorems; stdout vs -o file vs in-process stream.',
                 note='same trusted base as C01/C04/C09; C17_binary64 instance'),
     'C03': dict(design='§6 C03', technique='Lean 4 proof (case insertion + product-of-groups language: every training parse is a derivation; emitted mass = 1 over Rat) + real train→guess runs with an independent reparse oracle',
                 text='Theorems: the loader gives every alpha slot its capitalisation slot (all positions, any structure); the password of a training parse is in the product specification of its pre-terminal; every pre-terminal is emitted (C02); mass over Rat sums to 1. Real trainer + real guesser on generated lists: every supported training password appears, probability mass equals 1 up to rounding.',
-                note='which parse the trainer chooses is C05; float mass compared with tolerance; multiword detector threshold is runtime data'),
+                note='which parse the trainer chooses is C05; float mass compared with tolerance; multiword detector threshold is runtime data; C03_trained_reproduced: the listing hypothesis is discharged from Model/Trainer.lean (every tally of a list password is >= 1, so count/total is not zero); prefixcount layout with leading-space passwords judged against the generated list'),
     'C05': dict(design='§6 C05', technique='Lean 4 proof (tiling invariant of every detector stage and of the whole pipeline for any Unicode database that preserves length under the detectors\' lower-casing) + correspondence of all detectors on generated passwords',
                 text='Theorems: for every input and every Unicode environment with length-preserving lower-casing the keyboard/e-mail/website/year/context/alpha/digit/other stages keep a tiling of the password, every section ends labelled, labels carry the section length, keyboard sections are single-layout walks of >= 4 keys. Detector tables (layouts, TLDs, year prefixes, context list) regenerated from the source each run; the real detectors compared section by section.',
                 note='CPython Unicode database enters as a parameter (validated per code point for the letters used; the alpha-position law of C05_other_sound over all code points each run); multiword trie contents are data. C05_other_sound: the detector loops run to their end with the pipeline fuel - other segments contain no letter and no digit; C05_len_indexed_counters: the length-indexed counters are tallies (model of _update_counter_len_indexed driven against the real method)'),
@@ -46,13 +46,13 @@ CLAIMED = {
                 note='exact arithmetic in the theorem; over doubles the two products differ by rounding (harness tolerance 1e-12 relative); OMEN level scoring is C11; the scorer\'s own multi-word table is data (any table, universally quantified)'),
     'C06': dict(design='§6 C06', technique='Lean 4 proof (calcProbs: permutation, count/total, stable sort, sum = 1 over Rat, Markov share) + bit-exact correspondence + file-by-file recomputation',
                 text='Theorems for every counter; real calculate_probabilities compared bit for bit; every list file of real trainings equals the independently recomputed relative-frequency list of the real parser counters; determinism across hash seeds.',
-                note='C06_sorted_binary64: the written doubles are non-increasing in file order (correctly rounded count/total is monotone in the count; model SF.ratio compared bit for bit with CPython int/int and float/float each run); float sums differ from 1 by rounding only; which items reach which counter is C05; re-training over an existing rule directory exercised'),
+                note='C06_sorted_binary64: the written doubles are non-increasing in file order (correctly rounded count/total is monotone in the count; model SF.ratio compared bit for bit with CPython int/int and float/float each run); float sums differ from 1 by rounding only; which items reach which counter is C05; re-training over an existing rule directory exercised; C06_cli_passes_coverage (trainer.py option glue regenerated); trainer.py run as a program with --coverage as typed'),
     'C12': dict(design='§6 C12, App. B', technique='Lean 4 proof (two-actor state machine, induction over all schedules and stdin scripts) + real two-thread runs under a scripted baton + 8 real stdin kinds (incl. pseudo-terminal)',
                 text='For every schedule and stdin script: output is a prefix of the stream; complete unless q was read; exit only after q, saved, at a boundary. Quit-test source generated from the code. Real CrackingSession/keypress driven deterministically and compared with the model.',
                 note='OS scheduling and input() per stdin kind observed, not proved; GIL atomicity trusted'),
     'C15': dict(design='§6 C15, App. B', technique='Lean 4 proof (exit/resume exactness for arbitrary starting files, no-replay, enumerator state split) + scripted quits at every guess position with 2-3 resume cycles',
                 text='printed ++ remaining(files left) = remaining(start) for every schedule; option removed after the restored level; real sessions quit at each j and resumed, concatenation = uninterrupted stream.',
-                note='pickle/configparser round trips trusted; quit inside the very last Markov pre-terminal is a recorded known finding (C15_last_unit_loss shows the excluded point in the model). The state machine yields before every call of the OMEN generator (the end-of-level window is a schedule); C15_session_files_injective + C15_file_name_expressions: different session names never share a .sav / .omn file (name expressions regenerated from source); the program itself is quit by a typed q inside a Markov level and resumed'),
+                note='pickle/configparser round trips trusted; quit inside the very last Markov pre-terminal is a recorded known finding (C15_last_unit_loss shows the excluded point in the model). The state machine yields before every call of the OMEN generator (the end-of-level window is a schedule); C15_session_files_injective + C15_file_name_expressions: different session names never share a .sav / .omn file (name expressions regenerated from source); the program itself is quit by a typed q inside a Markov level and resumed; every .sav/.omn expression of the guesser regenerated (C15_file_name_expressions); quit session named <tag>.sav'),
     'C11': dict(design='§6 C11', technique='Lean 4 proof (scorer = trainer = levelOf over loaded tables; with C10: guesser emits s at L iff trainer level L) + correspondence of the three real implementations',
                 text='find_omen_level, OmenScorer.parse and the real MarkovCracker agree with each other and with the model on training, perturbed and boundary strings; guesser side proved exact in C10.',
                 note='smoothing (log/floor) modelled not verified: levels are inputs'),
@@ -61,7 +61,7 @@ CLAIMED = {
                 note='levels too large to enumerate are covered by the model only'),
     'C19': dict(design='§6 C19', technique='Lean 4 proof (readLine: hex = plain, count = repeats, skips, no leak, fold) + reader correspondence + trained-ruleset comparison',
                 text='Theorems for all lines / passwords / counts with int(), hex-decode and encode as parameters; real read_password sequences compared with the model; rulesets trained from the three encodings compared file by file.',
-                note='codec internals and int() are runtime parameters'),
+                note='codec internals and int() are runtime parameters; C19_only_totals_reach_the_ruleset (reader attribute uses regenerated); zero-count lines'),
     'C20': dict(design='§6 C20, §11.4', technique='Lean 4 proof (three filters = List.filter on rows, tokens = labels; the length promise: every guess of a kept structure within the bounds, a removed structure has a guess outside) + exact text diff of edit_rules + directory hashes + every guess of edited complete rulesets produced by the real guesser',
                 text='Filter theorems for all well-formed grammar files, options and context-value lengths; C20_guess_lengths / C20_only_failing_removed relate the (shortest, longest) label arithmetic to the guess lengths; real edit_rules output compared byte for byte with the model; other files hashed; real guesses before and after editing checked against the bounds. C20_only_grammar_written: the table of every file-system mutation in edit_rules.py is regenerated from the source each run - one copytree and one write-open of Grammar/grammar.txt, re-bound to the copy under --copy (decide).',
                 note='user regex abstract; letters whose upper-casing is longer than one character (ß → SS) under a U mask are a recorded known finding (C20_case_expansion_witness)'),
